@@ -78,6 +78,7 @@ class FuncInfo:
         self.ret = set()        # origins the return value may alias
         self.params = []
         self.reads_global = set()
+        self.all_origins = {}   # local name -> every origin ever bound to it
 
     @property
     def key(self):
@@ -110,6 +111,9 @@ class Analyzer(ast.NodeVisitor):
                 self.env[p] = {('PARAM', p)}
         self.globals_declared = set()
         self.nonlocals = set()
+        # names bound (only) to evidently scalar values: `x op= y` rebinds
+        self.scalar_names = set()
+        self.nonscalar_names = set()
         self.local_names = set(self.params)
         for n in ast.walk(fi.node):
             if isinstance(n, ast.Global):
@@ -239,6 +243,8 @@ class Analyzer(ast.NodeVisitor):
                                     target.lineno))
             elif strong:
                 self.env[target.id] = set(origins)
+                self.fi.all_origins.setdefault(target.id, set()).update(
+                    origins)
             else:
                 self.env.setdefault(target.id, set()).update(origins)
         elif isinstance(target, (ast.Tuple, ast.List)):
@@ -351,6 +357,9 @@ class Analyzer(ast.NodeVisitor):
             self.scan_expr(n.value)
             o = self.origins(n.value)
             for t in n.targets:
+                if isinstance(t, ast.Name):
+                    (self.scalar_names if _scalar_expr(n.value)
+                     else self.nonscalar_names).add(t.id)
                 if isinstance(t, (ast.Tuple, ast.List)) and isinstance(
                         n.value, (ast.Tuple, ast.List)) and len(
                             t.elts) == len(n.value.elts):
@@ -372,8 +381,11 @@ class Analyzer(ast.NodeVisitor):
             if isinstance(t, ast.Name):
                 # x += y mutates x in place when x is a mutable container;
                 # an evidently scalar right-hand side means a rebind
+                scalar_target = (t.id in self.scalar_names and
+                                 t.id not in self.nonscalar_names)
                 for o in self.origins(t):
-                    if o != FRESH and not _scalar_expr(n.value):
+                    if o != FRESH and not _scalar_expr(n.value) \
+                            and not scalar_target:
                         self.fi.writes.add((o, 'augassign', n.lineno))
                 if t.id in self.globals_declared:
                     self.fi.writes.add((('GLOBAL', t.id), 'rebind',
